@@ -153,10 +153,12 @@ CHECKS = {
     "C14": {
         "level": "exploration",
         # every case runs in a child process of its own (real engines + replication managers over loopback TCP, 3-10 s each)
-        "quick": {"shards": 16, "rounds": 1, "checks": 3, "timeout": 1500},
+        "quick": {"shards": 16, "rounds": 1, "checks": 2, "timeout": 1500},
         "thorough": {"shards": 16, "rounds": 4, "checks": 5, "timeout": 3000},
         "shrinktime": "60s",
         "assumptions": [
+            "replica-side fault model: ONE transient error from the replica's storage on a drawn replicated apply (the replication manager is handed a wrapper of the replica engine whose n-th PutInternal/DeleteInternal call fails once); the replica must still converge within the bound",
+            "aged_burst cases (1 in 7) keep a replica connected through 15-22 s of silence (15-16 s in the quick tier) before a burst of 150-400 writes; they use the default 10 s heartbeat while the heartbeat-backlog finding is open (flag idle_heartbeat_backlog)",
             "liveness is decided as bounded time: 60 s + 3 s per phase after the last write (the property's own 'tens of seconds on loopback'); measured convergence on a loaded machine is below 5 s",
             "primary and replicas run in one child process (separate engines, directories and replication managers) and talk over loopback TCP; a replica restart is Manager.Stop + Engine.Close + reopen of the same directory + new manager, not a process kill",
             "the verdict of a case depends on the schedule of the replica's 50 ms / 1 s state machine; a saved case is re-executed up to 3 times by the replay tier",
@@ -193,10 +195,12 @@ CHECKS = {
     "C17": {
         "level": "exploration",
         # every case runs in a child process of its own (1x, or 4x when a begin timed out in the lock queue)
-        "quick": {"shards": 16, "rounds": 1, "checks": 240, "timeout": 900},
+        "quick": {"shards": 16, "rounds": 1, "checks": 300, "timeout": 900},
         "thorough": {"shards": 16, "rounds": 4, "checks": 600, "timeout": 3000},
         "shrinktime": "60s",
         "assumptions": [
+            "a service call whose request context is already cancelled or expired is not judged by its result, only by its aftermath (transaction ended as a whole or still reachable, lock released, state consistent with what was reported)",
+            "storage faults are injected only at ApplyBatch of a commit, through a pass-through backend over engine.VerifStorage()",
             "liveness is decided with a bound: a begin that nothing legitimately stands in the way of must return within 5 s (normal: microseconds); the bound drops to 1 s only after a still-active transaction has been shown to be unreachable for every client, registry entry and goroutine",
             "lock-aware generator: a begin is only awaited when it must succeed in every interleaving of sync.RWMutex (queued readers behind a possibly queued writer are left alone until the holders finish); which queued writer goes first is observed, not predicted",
             "each client holds at most one transaction; stale cleanup is exercised either with every registered transaction certainly past its limit (the driver sleeps limit + 5 ms first) or with limits of 1 h / 1 min that cannot expire during a case",
